@@ -176,3 +176,73 @@ def comment_programs(tier, seed):
     progs.append(Prog('com/undef', [Undef('A'), Com('// c'), T('q', ' '), Com('/* d */', ' '), UndefAll(), T('r', '\n')], ['A']))
     progs.append(Prog('com/multi', [Com('/* a\n b */'), T('x', ' '), Com('/**/', ''), T('y', '\n'), Com('//'), T('z', '\n')], ['A']))
     return progs
+
+
+class IncProg(Prog):
+    def __init__(self, label, items, names, files, exists=None, include_paths=('p1', 'p2'), ignore=False, invalid=()):
+        Prog.__init__(self, label, items, names, files)
+        self.exists = exists or {}         # path -> True | False | 'sym'   (default 'sym')
+        self.include_paths = list(include_paths)
+        self.ignore = ignore
+        self.invalid = set(invalid)        # paths whose content is not valid UTF-8
+        self.ref_files = dict(files)
+        for p in self.invalid:
+            self.ref_files[p] = 'INVALID_UTF8'
+
+
+def include_programs(tier, seed):
+    progs = []
+    F = lambda tok: [T(tok, '\n')]
+    # search order: cwd, then include paths in order; both quoting styles; both path orders
+    for style in ('"', '<'):
+        for ips in (('p1', 'p2'), ('p2', 'p1')):
+            files = {'f.svh': F('fc'), 'p1/f.svh': F('f1'), 'p2/f.svh': F('f2')}
+            progs.append(IncProg('inc/search/%s/%s' % ('q' if style == '"' else 'a', '-'.join(ips)),
+                                 [T('a', '\n'), Inc('f.svh', style), T('z', '\n')], ['A'], files, include_paths=ips))
+    progs.append(IncProg('inc/absolute', [T('a', '\n'), Inc('/abs/f.svh'), T('z', '\n')], ['A'],
+                         {'/abs/f.svh': F('fa'), 'p1//abs/f.svh': F('bad')}, include_paths=('p1',)))
+    progs.append(IncProg('inc/nopaths', [T('a', '\n'), Inc('f.svh'), T('z', '\n')], ['A'], {'f.svh': F('fc')}, include_paths=()))
+    # defines flow in and out
+    progs.append(IncProg('inc/flow-in', [Def('M', 'm1'), Inc('f.svh'), T('z', '\n')], ['A'],
+                         {'f.svh': [Use('M', None, '\n'), Cond(False, [('A', [T('ya', '\n')])], [T('na', '\n')])]}, exists={'f.svh': True}))
+    progs.append(IncProg('inc/flow-out-def', [Inc('f.svh'), Use('N', None, '\n'), Cond(False, [('B', [T('yb', '\n')])], [T('nb', '\n')])], ['A', 'B'],
+                         {'f.svh': [Def('N', 'n1'), Def('B')]}, exists={'f.svh': True}))
+    progs.append(IncProg('inc/flow-out-undef', [Inc('f.svh'), Cond(False, [('A', [T('ya', '\n')])], [T('na', '\n')])], ['A', 'B'],
+                         {'f.svh': [Undef('A'), T('k', '\n')]}, exists={'f.svh': True}))
+    progs.append(IncProg('inc/flow-out-undefall', [Def('M', 'm1'), Inc('f.svh'), Cond(False, [('M', [T('ym', '\n')])], [T('nm', '\n')]),
+                                                   Cond(False, [('A', [T('ya', '\n')])], [T('na', '\n')])], ['A'],
+                         {'f.svh': [UndefAll(), T('k', '\n')]}, exists={'f.svh': True}))
+    # nesting and same file twice
+    progs.append(IncProg('inc/nested', [T('a', '\n'), Inc('f.svh'), Use('G', None, '\n'), T('z', '\n')], ['A'],
+                         {'f.svh': [T('f0', '\n'), Inc('g.svh'), T('f1', '\n')], 'g.svh': [Def('G', 'g1'), T('g0', '\n')], 'p1/g.svh': F('pg')},
+                         exists={'f.svh': True}))
+    progs.append(IncProg('inc/nested-undef', [Def('M', 'm1'), Inc('f.svh'), Cond(False, [('M', [T('ym', '\n')])], [T('nm', '\n')])], ['A'],
+                         {'f.svh': [T('f0', '\n'), Inc('g.svh')], 'g.svh': [Undef('M')]}, exists={'f.svh': True, 'g.svh': True}))
+    progs.append(IncProg('inc/twice', [Inc('f.svh'), T('m', '\n'), Inc('f.svh'), T('z', '\n')], ['A'],
+                         {'f.svh': [Cond(True, [('G', [Def('G'), T('body', '\n')])])]}, exists={'f.svh': True}))
+    # file named through a macro
+    progs.append(IncProg('inc/macro-named', [Def('INC', '"f.svh"'), Inc('f.svh', 'INC'), T('z', '\n')], ['A'],
+                         {'f.svh': F('fc'), 'p1/f.svh': F('f1')}))
+    progs.append(IncProg('inc/macro-named-undefined', [Inc('f.svh', 'NOPE'), T('z', '\n')], ['A'], {'f.svh': F('fc')}))
+    # same-line rule
+    progs.append(IncProg('inc/line/tok-before', [T('a', ' '), Inc('f.svh'), T('z', '\n')], ['A'], {'f.svh': F('fc')}, exists={'f.svh': True}))
+    progs.append(IncProg('inc/line/tok-after', [Inc('f.svh', '"', ' '), T('z', '\n')], ['A'], {'f.svh': F('fc')}, exists={'f.svh': True}))
+    progs.append(IncProg('inc/line/com-after', [Inc('f.svh', '"', ' '), Com('// k'), T('z', '\n')], ['A'], {'f.svh': F('fc')}, exists={'f.svh': True}))
+    progs.append(IncProg('inc/line/com-before', [Com('/* k */', ' '), Inc('f.svh'), T('z', '\n')], ['A'], {'f.svh': F('fc')}, exists={'f.svh': True}))
+    progs.append(IncProg('inc/line/use-before', [Def('M', 'm1'), Use('M', None, ' '), Inc('f.svh'), T('z', '\n')], ['A'], {'f.svh': F('fc')}, exists={'f.svh': True}))
+    progs.append(IncProg('inc/line/two-includes', [Inc('f.svh', '"', ' '), Inc('f.svh'), T('z', '\n')], ['A'], {'f.svh': F('fc')}, exists={'f.svh': True}))
+    progs.append(IncProg('inc/line/multiline-text-before', [T('a', '\n'), T('b', ' '), Inc('f.svh'), T('z', '\n')], ['A'], {'f.svh': F('fc')}, exists={'f.svh': True}))
+    progs.append(IncProg('inc/line/text-prev-line', [T('a', '\n'), Inc('f.svh'), T('z', '\n')], ['A'], {'f.svh': F('fc')}, exists={'f.svh': True}))
+    # ignore_include symbolic
+    progs.append(IncProg('inc/ignore', [T('a', '\n'), Inc('f.svh'), T('z', '\n')], ['A'], {'f.svh': F('fc')}, ignore='sym'))
+    progs.append(IncProg('inc/ignore-nested', [T('a', '\n'), Cond(False, [('A', [Inc('f.svh')])], [Inc('g.svh', '<')]), T('z', '\n')], ['A'],
+                         {'f.svh': F('fc'), 'g.svh': F('gc')}, ignore='sym'))
+    # faults
+    progs.append(IncProg('inc/invalid-utf8', [T('a', '\n'), Inc('f.svh'), T('z', '\n')], ['A'], {'f.svh': F('fc')}, exists={'f.svh': True}, invalid=['f.svh']))
+    progs.append(IncProg('inc/invalid-utf8-nested', [Inc('f.svh')], ['A'], {'f.svh': [T('f0', '\n'), Inc('g.svh')], 'g.svh': F('gc')},
+                         exists={'f.svh': True}, invalid=['g.svh']))
+    progs.append(IncProg('inc/dead-branch', [Cond(False, [('A', [Inc('nofile.svh')])], [T('e', '\n')]), T('z', '\n')], ['A'], {}))
+    # non-ASCII before an include (re-basing of the included origin map is in bytes)
+    progs.append(IncProg('inc/non-ascii', [Com('// © 2024 été'), T('a', '\n'), Inc('f.svh'), T('z', '\n')], ['A'],
+                         {'f.svh': [Com('/* ü */', ' '), T('fc', '\n')]}, exists={'f.svh': True}))
+    return progs
